@@ -387,3 +387,44 @@ def rule_a9_dynamic(ctx):
         ctx.ob('A9.dyn', f, 'return %s' % txt[:60], dyn,
                'this key does not depend on the alternative chosen in the value: value objects and Python values of the same '
                'content are ordered differently' if not dyn else 'depends on the chosen alternative', node=r)
+
+
+def rule_a11_parse(ctx):
+    """A11.parse: text -> datetime: offset = +/-(hh * 60 + mm) minutes, sign from the designator, type switches per X.680."""
+    from sa.rules.wire import _subst
+    from sa import intexpr
+    f = ctx.func('type.useful.TimeMixIn.asDateTime')
+    mins = [n for n in walk_own(f.node) if isinstance(n, ast.Assign) and norm(n.targets[0]) == 'minutes']
+    if not mins:
+        raise AnalysisError('offset computation not found in %s' % f.short)
+    t = _subst(mins[0].value, {'int(tz[:2])': '__h', 'int(tz[2:])': '__m'})
+    try:
+        ok = all(intexpr.ev(t, {'__h': h, '__m': m}) == 60 * h + m for h in (0, 1, 5, 14, 23) for m in (0, 1, 30, 59))
+    except intexpr.NotPure as x:
+        raise AnalysisError('offset expression `%s` not recognised: %s' % (norm(mins[0].value), x))
+    ctx.ob('A11.parse', f, 'offset minutes = hh * 60 + mm', ok, '`%s`' % norm(mins[0].value), node=mins[0])
+    neg = [n for n in walk_own(f.node) if isinstance(n, ast.If) and norm(n.test) in ("plusminus == '-'",) and
+           any(norm(s) in ('minutes *= -1', 'minutes = -minutes') for s in n.body)]
+    ctx.ob('A11.parse', f, 'offset negated exactly for the minus designator', len(neg) == 1, '')
+    parts = sorted(norm(n.value) for n in walk_own(f.node) if isinstance(n, ast.Assign) and 'partition(' in norm(n.value))
+    ok = "text.partition('+')" in parts and "text.partition('-')" in parts and "text.partition('.')" in parts and "text.partition(',')" in parts
+    ctx.ob('A11.parse', f, 'offset split at + or -, fraction split at . or ,', ok, str(parts))
+    g = [n for n in walk_own(f.node) if isinstance(n, ast.If) and norm(n.test) == 'len(tz) != 4' and any(isinstance(s, ast.Raise) for s in n.body)]
+    ctx.ob('A11.parse', f, 'offset must be hhmm (hh allowed for GeneralizedTime)', len(g) == 1 and any(
+        isinstance(n, ast.If) and norm(n.test) == 'self._shortTZ and len(tz) == 2' for n in walk_own(f.node)), '')
+    ok = any(isinstance(n, ast.If) and norm(n.test) == "text.endswith('Z')" and any('TimeMixIn.UTC' in norm(s) for s in n.body) for n in walk_own(f.node))
+    ctx.ob('A11.parse', f, 'Z designator means UTC', ok, '')
+    want = {'GeneralizedTime': {'_yearsDigits': 4, '_hasSubsecond': True, '_optionalMinutes': True, '_shortTZ': True},
+            'UTCTime': {'_yearsDigits': 2, '_hasSubsecond': False, '_optionalMinutes': False, '_shortTZ': False}}
+    for cname, attrs in want.items():
+        c = ctx.cls('type.useful.%s' % cname)
+        for a, v in attrs.items():
+            _, got = ctx.ev.class_attr(c, a)
+            ctx.ob('A11.parse', c, '%s = %r' % (a, v), got == v and type(got) is type(v), 'evaluates to %r' % (got,), nontrivial=False)
+    w = ctx.func('type.useful.TimeMixIn.fromDateTime')
+    fmts = sorted(set(x.value for n in list(walk_own(f.node)) + list(walk_own(w.node)) for x in ast.walk(n)
+                      if isinstance(x, ast.Constant) and isinstance(x.value, str) and x.value.startswith('%') and 'm%d' in x.value))
+    ctx.ob('A11.parse', f, 'writer and reader use the same calendar formats', fmts == ['%Y%m%d%H%M%S', '%y%m%d%H%M%S'], str(fmts))
+    # writer: Z for no offset / zero offset
+    ok = any(isinstance(n, ast.If) and norm(n.test) in ('offset', 'dt.utcoffset()') and any("text += 'Z'" == norm(s) for s in n.orelse) for n in walk_own(w.node))
+    ctx.ob('A11.parse', w, 'a datetime without offset (or with offset 0) is written with Z', ok, '')
